@@ -76,6 +76,17 @@ def run_C01(ctx):
     ctx.tlc_phase("slice-lists-options", "Session", consts, invariants=["Refines", "Closed"],
                   require_actions=["SliceOp", "WrapListOffset", "WrapList", "WrapRegular", "WrapIndexedOption"],
                   seed_tlc=True)
+    # multi-dimensional (rectilinear) data and 2-d index arrays of every small shape
+    arr2 = ("{Arr2(p[1], p[2]) : p \\in {q \\in {<<0, 1, 2, 2, -1, 0>>, <<1, 0, 0, 1, 1, 0>>, <<0, 0, 1, 0, 2, 1, 1, 2, 0, -1, -2, 0>>, "
+            "<<2, 1>>, <<0, -3, 1, 5>>} \\X {1, 2, 3} : Len(q[1]) % q[2] = 0}}")
+    rng = "{Range(NoBound, NoBound, 1), Range(1, NoBound, 1), Range(NoBound, NoBound, -1), Range(NoBound, 2, 2)}"
+    tuples = ("({<<a>> : a \\in %s} \\cup {<<r, a>> : r \\in %s, a \\in %s} \\cup {<<a, r>> : r \\in %s, a \\in %s} "
+              "\\cup {<<r, q, a>> : r \\in %s, q \\in %s, a \\in %s})" % (arr2, rng, arr2, rng, arr2, rng, rng, arr2))
+    consts = session_consts(OpSet='{"slice"}', LeafSet='{Numpy("int64", [k \\in 1..n |-> k * 10]) : n \\in {6, 12}}',
+                            Classes='{"Regular"}', MaxDepth="2", MaxLen="12",
+                            SliceTuples="RandomSubset(%d, %s)" % (150 if ctx.quick() else 600, tuples))
+    ctx.tlc_phase("slice-2d-index-arrays", "Session", consts, invariants=["Refines", "Closed"],
+                  require_actions=["SliceOp", "WrapRegular"], seed_tlc=True, sample_cases=(150000 if ctx.quick() else None), timeout=400)
     return ctx.finish(assumptions=["slice tuples are a seeded random subset (per layout) of the tier's tuple alphabet"])
 
 
@@ -88,11 +99,11 @@ OPTION_CLASSES = '{"ListOffset","List","Regular","IndexedOption","ByteMasked","B
 
 def run_C09(ctx):
     ctx.build("opt")
-    consts = session_consts(OpSet='{"tolist","pad"}', LeafSet=leafset(2 if ctx.quick() else 3), Classes=OPTION_CLASSES,
+    consts = session_consts(OpSet='{"tolist","pad","isnone"}', LeafSet=leafset(2 if ctx.quick() else 3), Classes=OPTION_CLASSES,
                             Axes="{-3,-2,-1,0,1,2,3}" if not ctx.quick() else "{-2,-1,0,1,2}",
                             Targets="{0,1,2,3}" if not ctx.quick() else "{0,1,3}")
     ctx.tlc_phase("pad-all-encodings", "Session", consts, invariants=["Refines", "Closed"],
-                  require_actions=["PadOp", "WrapByteMasked", "WrapBitMasked", "WrapIndexedOption", "WrapUnmasked"])
+                  require_actions=["PadOp", "IsNoneOp", "WrapByteMasked", "WrapBitMasked", "WrapIndexedOption", "WrapUnmasked"])
     return ctx.finish()
 
 
